@@ -32,7 +32,7 @@ CHECKS = {
  "C01": ("model_checking", "linearizability check of enumerated interleavings of the real code against TLA+ ownership model (TraceAbs Call/Lin/Ret)",
          "The real code runs the scenario catalogue under a baton scheduler with a scheduling point at every atomic access; all schedules with <=2 (quick) / <=3 (thorough) pre-emptions plus PCT schedules are executed and every distinct observable execution is validated by TLC: each successful allocation must take effect at some instant between call and return at which its block is aligned, in range and entirely free in the abstract state.", "5 C01"),
  "C03": ("model_checking", "trace validation of enumerated interleavings: no panic result is admissible, frees of held blocks must return Ok",
-         "Same executions as C01; panics are caught per call and logged as results, TraceAbs!Call rejects them and any failing free of a held block.", "5 C03"),
+         "Same executions as C01, each followed by the callers' wind-down (every block still held is freed, then a drain; sequential sc events); panics are caught per call and logged as results, TraceAbs!Call / SeqPanic / SeqPut reject them and any failing free of a held block. Plus the FINE model (NoPanic, PutsOk) on catalogue and synthesised scenarios.", "5 C03, 0.3"),
  "C05": ("fault_enumeration", "crash-point enumeration on the real code, recovered state checked by TLC against TraceAbs!Crash",
          "Before every write to the persistent metadata (and at the end) of random single-thread programs and enumerated concurrent schedules the lower buffer is snapshotted, recovered with Init::Recover into a fresh allocator and observed; TLC evaluates the crash-consistency predicate against its own history variables (held blocks, in-flight calls, abstract free set).", "5 C05"),
  "C21": ("model_checking", "solo-run enumeration on the real code, step counts validated by TLC against TraceAbs!SoloBound; plus TLC on the FINE model with a Freeze step (every reachable state x every in-flight thread)",
